@@ -1,7 +1,7 @@
 #!/bin/bash
 # usage: lib/runall.sh [tier] [props...]  - runs the registered checks one after the other, prints one line each
 tier=${1:-quick}; shift
-cd /verif
+cd "$(dirname "$(readlink -f "$0")")/.."
 props=${@:-$(python3 -c "import json;print(' '.join(c['property_id'] for c in json.load(open('MANIFEST.json'))['checks']))")}
 for p in $props; do
   out=$(./check $p $tier 2>/tmp/runall-$p.err); rc=$?
